@@ -4,7 +4,7 @@ from __future__ import annotations
 import ast
 
 from ..const import NameRef, module_const
-from ..core import AnalysisError, calls_in, call_name, const_str, dotted, unparse, walk_no_nested
+from ..core import AnalysisError, walk_no_nested as _wnn, calls_in, call_name, const_str, dotted, unparse, walk_no_nested
 from ..match import enclosing_map, if_chain
 from ..report import Ctx
 from .c08 import APPENDERS
@@ -114,6 +114,32 @@ def r2_skip_sets(ctx: Ctx) -> None:
             ctx.count("comment_arms")
             ctx.check(unparse(body[-1]) == "s.emit(TokenType.COMMENT)", f"lex_initial:{t}", "the comment becomes a COMMENT token")
     ctx.floor("comment_arms", 2)
+    # the block-comment terminator is looked for at every position, including right after the opener (`/**/`)
+    from ..cfg import CFG
+    g = CFG(li.node)
+    for test, body in arms:
+        if unparse(test) != "s.accept_prefix('/*')":
+            continue
+        term_tests = [nid for nid, n in g.nodes.items() if n.kind == "test" and "s.accept_prefix('*/')" in unparse(n.ast)]
+        consumers = []
+        for st in body:
+            for sub in walk_no_nested(st):
+                if isinstance(sub, ast.Call) and call_name(sub) in ("s.next", "s.accept_run", "s.accept") or (isinstance(sub, ast.AugAssign) and unparse(sub.target) == "s.pos"):
+                    try:
+                        consumers.append(g.node_containing(sub) if isinstance(sub, ast.Call) else g.node_of(sub))
+                    except AnalysisError:
+                        pass
+        if not term_tests:
+            raise AnalysisError("lex_initial: `*/` terminator test not found in the block-comment arm")
+        first = body[0]
+        start = g.node_of(first.test) if isinstance(first, (ast.If, ast.While)) else g.node_of(first)
+        for cn in sorted(set(consumers)):
+            if cn in term_tests:
+                continue
+            ok = g.every_path_passes(start, cn, term_tests) and cn not in g.reachable([m for m, _ in g.succ[cn]], blocked=term_tests)
+            ctx.check(ok, f"lex_initial:/*-arm:consumes `{g.nodes[cn].text()[:40]}`", "a character of the comment body is consumed only after `*/` was looked for at that position "
+                      "(otherwise the terminator of an empty comment `/**/` is skipped and the following statements are swallowed)")
+        ctx.count("comment_consumers", len(set(consumers)))
     pd = ctx.repo.func(PST, "parse_decl")
     arms, _ = if_chain([s for s in pd.node.body if isinstance(s, ast.If)][0])
     ok = any(_accept_guard_token(t) == "COMMENT" and [unparse(b) for b in body] == ["return None"] for t, body in arms)
